@@ -1,0 +1,8 @@
+//go:build !verif
+
+package fhirpath
+
+import "github.com/verily-src/fhirpath-go/fhirpath/internal/parser"
+
+// verifVisitor is a no-op unless the library is built with the verif tag.
+func verifVisitor(*parser.FHIRPathVisitor) {}
